@@ -3,8 +3,9 @@
 
    Model:  Codegen/LowerStmtModel.v `lower_stmts` / `lower_body` = hidc's gen_stmts / gen_block on
            F_stmt: int and bool locals (declaration, assignment, compound assignment), write(byte) /
-           writeln(), if / else, while / for with break and continue, nested blocks with their own
-           locals; expressions from the `lowerbool` fragment.  Tied TEXTUALLY to the compiler by
+           writeln(), write / writeln of an int or a bool through the runtime library (write_int,
+           write_bool: the call protocol of eval_func_call), if / else, while / for with break and
+           continue, nested blocks with their own locals; expressions from the `lowerbool` fragment.  Tied TEXTUALLY to the compiler by
            tools/corr_lowerstmt.py (whole function bodies, labels and the entry-guard constant).
    Source semantics (Codegen/LowerStmtProofs.v §1, independent of the lowering): stores, ieval /
            bevals (wrap-around, signed comparison, short-circuit), the big-step relation
@@ -18,13 +19,18 @@
                          local's byte = its value (0 / 1)
      need_stmts S ss     the largest frame offset the lowered code reaches (STACK ROOM; it is also
                          the constant of hidc's entry stack guard, checked by the correspondence)
-     fagree m m'         m' differs from m at most in r0, r1 and in [lo, [fp]-fb)
+     fagree m m'         m' differs from m at most in r0, r1, r2 and in [lo, [fp]-fb)
+     lib_hyps w R code   what a library call needs (only programs that call the library need it):
+                         hidc's register layout and the regenerated library loaded at a_lib R; the
+                         call case combines Sphinx/CallProtocol.call_idiom with
+                         StdlibInt.write_int_spec / StdlibBool.write_bool_spec, so the events are
+                         `decimal v` resp. "true" / "false"
    All statements: every program of the fragment, every w >= 2, arbitrary surrounding code,
    arbitrary base address; terminating source runs (big-step); `runs` transports Halts both ways,
    so a non-halting continuation gives a non-halting start state (C01_stmts_no_new_halt). *)
 From Coq Require Import ZArith List Bool Lia.
-From HidV Require Import Machine Halts VM Driver WordLemmas MemLemmas GenTables OpTables Idioms
-                         LowerBoolModel LowerBoolProofs LowerStmtModel LowerStmtProofs.
+From HidV Require Import Machine Halts VM Driver WordLemmas MemLemmas GenTables GenStdlib OpTables Idioms
+                         StdlibBase LowerBoolModel LowerBoolProofs LowerStmtModel LowerStmtProofs.
 Import ListNotations.
 Open Scope Z_scope.
 
@@ -49,7 +55,7 @@ Theorem C01_stmts_lowering_correct ss s0 evs s1 S st B m :
   let S' := snd (fst (fst r)) in
   code_at code B (resolve R ext B C) -> 0 <= B -> B + size C < Machine.W w ->
   wf_senv w fb S -> rep w R lo S s0 m ->
-  ssscoped w (length (ioffs S)) (length (boffs S)) false ss ->
+  ssscoped w (lib_hyps w R code) (length (ioffs S)) (length (boffs S)) false ss ->
   need_stmts S ss <= FP m - lo ->
   exists m', runs (mk B m) (map EOut evs) (mk (B + size C) m') /\
              rep w R lo S' s1 m' /\ wf_senv w fb S' /\ fagree w R lo fb m m'.
@@ -64,7 +70,7 @@ Theorem C01_stmts_lowering_correct_gen ss s0 evs out s1 S li st B m :
   code_at code B (resolve R ext B C) -> 0 <= B -> B + size C < Machine.W w ->
   match li with Some (lc, lb) => below st lc /\ below st lb | None => True end ->
   wf_senv w fb S -> rep w R lo S s0 m ->
-  ssscoped w (length (ioffs S)) (length (boffs S)) (match li with Some _ => true | None => false end) ss ->
+  ssscoped w (lib_hyps w R code) (length (ioffs S)) (length (boffs S)) (match li with Some _ => true | None => false end) ss ->
   need_stmts S ss <= FP m - lo ->
   exists m' pc',
     match out, li with
@@ -82,7 +88,7 @@ Theorem C01_body_lowering_correct ss s0 evs s1 S st B m : w <= fb ->
   let C := fst (lower_body S ss st) in
   code_at code B (resolve R ext B C) -> 0 <= B -> B + size C < Machine.W w ->
   wf_senv w fb S -> rep w R lo S s0 m ->
-  ssscoped w (length (ioffs S)) (length (boffs S)) false ss ->
+  ssscoped w (lib_hyps w R code) (length (ioffs S)) (length (boffs S)) false ss ->
   need_stmts S ss <= FP m - lo ->
   let ra := Machine.lw w m (FP m - w) in
   exists m', runs (mk B m) (map EOut evs) (mk ra m') /\ fagree w R lo fb m m' /\ Machine.lw w m' (a_r1 R) = ra.
@@ -93,7 +99,7 @@ Theorem C01_stmts_no_new_halt ss s0 evs s1 S st B m :
   let C := fst (fst (fst (lower_stmts S None ss st))) in
   code_at code B (resolve R ext B C) -> 0 <= B -> B + size C < Machine.W w ->
   wf_senv w fb S -> rep w R lo S s0 m ->
-  ssscoped w (length (ioffs S)) (length (boffs S)) false ss ->
+  ssscoped w (lib_hyps w R code) (length (ioffs S)) (length (boffs S)) false ss ->
   need_stmts S ss <= FP m - lo ->
   (forall m', ~ Halts (mk (B + size C) m')) -> ~ Halts (mk B m).
 Proof. exact (@stmts_no_new_halt w Hw code cmem R lo fb ext ext_range ss s0 evs s1 S st B m). Qed.
@@ -126,6 +132,22 @@ Example C01_body_vm_run_sat :
   end.
 Proof. exact body_vm_run_ex. Qed.
 
+(* a program that prints numbers: `int x = a * 100; writeln(x - 7); write(x > b);` with the library
+   in the code: source run, the theorem, and the VM run ("493\n", "true", then the win flag) *)
+Example C01_lib_source_run_sat : exists s1, execs 2 lx_ss sx_s0 lx_out ONormal s1.
+Proof. exact lx_exec. Qed.
+Example C01_lib_hyps_sat : lib_hyps 2 lx_regs (code_of lx_prog).
+Proof. exact lx_lib_hyps. Qed.
+Example C01_lib_body_lowering_sat :
+  exists m', HidV.Sphinx.Halts.runs (Machine.act 2 (code_of lx_prog) (zmem 0)) (mk 0 lx_mem) (map EOut lx_out) (mk lx_lib m').
+Proof. exact lib_body_lowering_ex. Qed.
+Example C01_lib_body_vm_run_sat :
+  match run_program 2 lx_bytes [] lx_prog [] mon_none 5000 with
+  | OAbsorbed evs s _ => firstn 9 evs = map EOut lx_out ++ [EFlag 0]
+  | _ => False
+  end.
+Proof. exact lib_body_vm_run_ex. Qed.
+
 Print Assumptions C01_stmts_lowering_correct.
 Print Assumptions C01_stmts_lowering_correct_gen.
 Print Assumptions C01_body_lowering_correct.
@@ -135,3 +157,7 @@ Print Assumptions C01_lower_stmts_labels_fresh.
 Print Assumptions C01_source_run_sat.
 Print Assumptions C01_body_lowering_sat.
 Print Assumptions C01_body_vm_run_sat.
+Print Assumptions C01_lib_source_run_sat.
+Print Assumptions C01_lib_hyps_sat.
+Print Assumptions C01_lib_body_lowering_sat.
+Print Assumptions C01_lib_body_vm_run_sat.
